@@ -1,10 +1,11 @@
 """C04 — resource ledger conservation (and the worker/pool half of C01: demand <= capacity)."""
+import glob
 import itertools
 import json
 import os
 
 import core
-from core import gz, glist, gopt, gbool
+from core import gz, glist, gopt, gbool, gval
 
 FILES = ["workload/resource.py", "workload/resources.py", "workers/workers.py", "workload/strategy.py"]
 TRUSTED = [
@@ -14,9 +15,12 @@ TRUSTED = [
     "CPython dict (insertion order, lookup by __hash__ then __eq__), set, defaultdict and copy.copy/deepcopy dispatch are "
     "modelled, not verified; the second-level `_scheduler` of WorkerPool is out of scope (None in every configuration of /repo)",
     "the Task half of Worker.step (stepping RUNNING tasks) belongs to the Task/Sim model; here tasks are never RUNNING",
+    "monitors read the private cells `_resource_vector` / `_current_allocations` / `_placed_tasks` of the implementation "
+    "through the adapter harness/impl/ledger.py in addition to the public getters",
 ]
 EXPLANATION = None
 HDR = "From Verif Require Import Model.Res Model.Worker."
+CORPUS = os.path.join(core.ROOT, "corpus", "C04")
 
 
 # --------------------------------------------------------------------------------------------
@@ -114,16 +118,34 @@ def g_case(case):
     return "(%s, %s, %s)" % (probes, g_objs(case["objs"]), glist([g_cmd(c, S) for c in case["cmds"]]))
 
 
+def k_of_obs(k):
+    """key as observed ([name, [] | [id]]) -> [name, None | id]"""
+    return [k[0], None if k[1] == [] else k[1][0]]
+
+
+def g_obs_vec(v):
+    return g_vec([[k_of_obs(k), q] for k, q in v])
+
+
+def g_obs_allocs(a):
+    return glist(["(%s, %s)" % (g_comp(c), g_obs_vec(l)) for c, l in a])
+
+
+def g_getters(keys, getters):
+    return glist(["(%s, (%s, %s, %s, %s))" % (g_key(k), gz(g[0]), gz(g[1]), gz(g[2]), gz(g[3]))
+                  for k, g in zip(keys, getters)])
+
+
 # --------------------------------------------------------------------------------------------
 # generators
 # --------------------------------------------------------------------------------------------
-def gen_vector(rng, names, mixed_ok):
+def gen_vector(rng, names, odd):
     v = []
     for n in names:
         r = rng.random()
         if r < 0.3:
             cells = [None]
-        elif mixed_ok and r < 0.4:
+        elif odd and r < 0.45:
             cells = [None] + list(range(rng.randint(1, 2)))
             rng.shuffle(cells)
         else:
@@ -137,10 +159,10 @@ def gen_vector(rng, names, mixed_ok):
 
 def gen_request(rng, names, odd):
     """a request vector: dict keys are distinct (name, id) pairs"""
-    n = rng.choice([0, 1, 1, 1, 2, 2, 3]) if odd else rng.choice([1, 1, 1, 2, 2])
+    n = rng.choice([0, 1, 1, 1, 2, 2, 3]) if odd else rng.choice([1, 1, 1, 1, 2, 2, 3])
     keys = []
     for _ in range(n):
-        nm = rng.choice(names + ([9] if odd and rng.random() < 0.1 else []))
+        nm = rng.choice(names + ([9] if rng.random() < 0.05 else []))
         i = None if rng.random() < 0.6 else rng.randrange(3)
         if [nm, i] not in keys:
             keys.append([nm, i])
@@ -148,14 +170,14 @@ def gen_request(rng, names, odd):
     return [[k, rng.choice(qs)] for k in keys]
 
 
-def gen_case(rng, maxcmds, kinds=("res", "worker", "pool")):
-    odd = rng.random() < 0.5          # inputs outside the well-formedness hypotheses of the theorems
+def gen_case(rng, maxcmds, kinds=("res", "worker", "pool"), odd=None):
+    if odd is None:
+        odd = rng.random() < 0.35       # inputs outside the hypotheses of the theorems (correspondence only)
     names = list(range(rng.randint(1, 3)))
     strats = []
     for i in range(rng.randint(3, 5)):
         strats.append({"id": i, "batch": rng.random() < 0.4, "req": gen_request(rng, names, odd),
-                       "bsize": rng.choice([0, 1, 2, 2, 3]) if odd else rng.choice([1, 2, 2, 3]),
-                       "runtime": rng.choice([0, 1, 2, 5])})
+                       "bsize": rng.choice([0, 1, 2, 2, 3]), "runtime": rng.choice([0, 1, 2, 5])})
     sids = [s["id"] for s in strats]
     tasks = [[t, rng.sample(sids, rng.randint(1, 2))] for t in range(4)]
     profs = [0, 1]
@@ -177,46 +199,70 @@ def gen_case(rng, maxcmds, kinds=("res", "worker", "pool")):
     keys = []
     for n in names:
         keys += [[n, None], [n, 0], [n, 1], [n, 2]]
-    case = {"keys": keys, "strats": strats, "tasks": tasks, "profs": profs, "objs": objs, "cmds": [], "odd": odd}
+    case = {"keys": keys, "strats": strats, "tasks": tasks, "profs": profs, "objs": objs, "cmds": [], "odd": odd,
+            "cleanup": True}
     kinds_now = [o[0] for o in objs]
     wids = {}
     for i, o in enumerate(objs):
         if o[0] == "pool":
             wids[i] = [w[0] for w in o[2]]
+    placed = [set() for _ in objs]      # optimistic residency, only to bias the choice of operations
+    loaded = [set() for _ in objs]
+    held = [set() for _ in objs]
     for _ in range(rng.randint(3, maxcmds)):
         if len(kinds_now) < 4 and rng.random() < 0.12:
             i = rng.randrange(len(kinds_now))
-            case["cmds"].append([rng.choice(["copy", "copy", "deepcopy"]), i])
+            kind = rng.choice(["copy", "copy", "deepcopy"])
+            case["cmds"].append([kind, i])
             kinds_now.append(kinds_now[i])
+            placed.append(set(placed[i]) if kind == "copy" else set())
+            loaded.append(set(loaded[i]) if kind == "copy" else set())
+            held.append(set(held[i]) if kind == "copy" else set())
             if i in wids:
                 wids[len(kinds_now) - 1] = wids[i]
             continue
         i = rng.randrange(len(kinds_now))
         k = kinds_now[i]
         r = rng.random()
+
+        def pick(pool_, inside, p_in):
+            cand = [x for x in pool_ if (x in inside) == (rng.random() < p_in)]
+            return rng.choice(cand) if cand else rng.choice(pool_)
         if k == "res":
-            comp = [rng.choice([0, 0, 1, 2]), rng.randrange(3)]
-            if comp[0] == 2:
-                comp[1] = rng.randrange(2)
+            comps = [(0, 0), (0, 1), (0, 2), (1, 0), (1, 1), (2, 0), (2, 1)]
             if r < 0.3:
+                comp = list(rng.choice(comps))
                 key = [rng.choice(names), None if rng.random() < 0.5 else rng.randrange(3)]
                 op = ["alloc", key, comp, rng.choice([0, 1, 1, 2, 3] + ([-1] if odd else []))]
-            elif r < 0.65:
+                held[i].add(tuple(comp))
+            elif r < 0.62:
+                comp = list(rng.choice(comps))
                 op = ["allocm", gen_request(rng, names, odd), comp]
-            elif r < 0.93:
+                held[i].add(tuple(comp))
+            elif r < 0.95 or not odd:
+                comp = list(pick(comps, held[i], 0.85))
                 op = ["dealloc", comp]
+                held[i].discard(tuple(comp))
             else:
-                op = ["getalloc", comp]
+                op = ["getalloc", list(rng.choice(comps))]
         elif k == "worker":
             if r < 0.42:
-                op = ["place", rng.randrange(4), rng.choice(sids)]
-            elif r < 0.7:
-                op = ["remove", rng.randrange(4)]
-            elif r < 0.8:
-                op = ["load", rng.randrange(2), rng.choice(sids)]
+                t = pick(range(4), placed[i], 0.08 if not odd else 0.3)
+                op = ["place", t, rng.choice(sids)]
+                placed[i].add(t)
+            elif r < 0.68:
+                t = pick(range(4), placed[i], 0.85)
+                op = ["remove", t]
+                placed[i].discard(t)
+            elif r < 0.79:
+                p = pick(range(2), loaded[i], 0.08 if not odd else 0.3)
+                op = ["load", p, rng.choice(sids)]
+                loaded[i].add(p)
             elif r < 0.88:
-                op = ["evict", rng.randrange(2)]
-            elif r < 0.96:
+                p = pick(range(2), loaded[i], 0.85)
+                op = ["evict", p]
+                loaded[i].discard(p)
+            elif r < 0.97 or not odd:
                 op = ["step", rng.choice([1, 1, 2, 3])]
             else:
                 op = ["getalloc", rng.randrange(4)]
@@ -225,10 +271,13 @@ def gen_case(rng, maxcmds, kinds=("res", "worker", "pool")):
                 x = rng.random()
                 return None if x < 0.5 else (7 if x < 0.55 else rng.choice(wids[i]))
             if r < 0.45:
-                t = rng.randrange(4)
+                t = pick(range(4), placed[i], 0.08 if not odd else 0.3)
                 op = ["place", t, tasks[t][1], rng.choice(sids) if rng.random() < 0.7 else None, wid()]
+                placed[i].add(t)
             elif r < 0.72:
-                op = ["remove", rng.randrange(4)]
+                t = pick(range(4), placed[i], 0.85)
+                op = ["remove", t]
+                placed[i].discard(t)
             elif r < 0.82:
                 op = ["load", rng.randrange(2), rng.choice(sids), wid()]
             elif r < 0.9:
@@ -239,10 +288,358 @@ def gen_case(rng, maxcmds, kinds=("res", "worker", "pool")):
     return case
 
 
-def nontrivial(case, obs):
-    """a refused request, or a batch / copy / any-request that succeeded"""
+# --------------------------------------------------------------------------------------------
+# reading the implementation's observations
+# --------------------------------------------------------------------------------------------
+def workers_of(obs):
+    """worker observations inside an object observation"""
+    if obs[0] == 1:
+        return [obs[1]]
+    if obs[0] == 2:
+        return obs[1][0]
+    return []
+
+
+def placed_of(wobs):
+    return [t for t, _ in wobs[1]]
+
+
+def profiles_of(wobs):
+    return wobs[3] + wobs[4]
+
+
+def has_batch(wobs, S):
+    return any(S[sid]["batch"] for _, sid in wobs[1])
+
+
+def public(obs):
+    """the part of an observation the property speaks about (public getters)"""
+    if obs[0] == 0:
+        r = obs[1]
+        return [0, r[0], r[1], r[2]]
+    if obs[0] == 1:
+        return [1] + public_worker(obs[1])
+    if obs[0] == 2:
+        p = obs[1]
+        return [2, [public_worker(w) for w in p[0]], p[1], p[2], p[3], p[4]]
+    return obs
+
+
+def public_worker(w):
+    r = w[0]
+    return [[r[0], r[1], r[2]], placed_of(w), w[2], w[3], w[4], w[5], w[6]]
+
+
+def no_positive(req):
+    return not any(q > 0 for _, q in req)
+
+
+def positive_nonneg(case):
+    return all(q >= 0 for s in case["strats"] for _, q in s["req"])
+
+
+def wf_vector(v):
+    def match(a, b):
+        return a[0] == b[0] and (a[1] is None or b[1] is None or a[1] == b[1])
+    return all(q >= 0 for _, q in v) and not any(match(v[i][0], v[j][0]) for i in range(len(v)) for j in range(i))
+
+
+def vectors_of(o):
+    return [o[1]] if o[0] == "res" else ([o[2]] if o[0] == "worker" else [w[1] for w in o[2]])
+
+
+def case_in_hypotheses(case):
+    """the static part of the theorems' hypotheses (input signature of the refuted lemmas otherwise)"""
+    if case.get("odd"):
+        return False
+    if not positive_nonneg(case):
+        return False
+    if not all(wf_vector(v) for o in case["objs"] for v in vectors_of(o)):
+        return False
+    for c in case["cmds"]:
+        if c[0] in ("res", "worker") and c[2][0] == "getalloc":
+            return False
+        if c[0] == "res" and c[2][0] == "alloc" and c[2][3] < 0:
+            return False
+        if c[0] == "res" and c[2][0] == "allocm" and any(q < 0 for _, q in c[2][1]):
+            return False
+    return True
+
+
+class Mon:
+    """collects monitor inputs (Gallina text) with the place they come from"""
+
+    def __init__(self):
+        self.items = {"M-worker": [], "M-res": [], "M-same": [], "M-full": [], "M-pool": []}
+        self.where = {k: [] for k in self.items}
+
+    def add(self, stream, text, where):
+        self.items[stream].append(text)
+        self.where[stream].append(where)
+
+
+def g_wobs(case, tot, w):
+    S = {s["id"]: s for s in case["strats"]}
+    names = sorted({k[0] for k in case["keys"]})
+    r = w[0]
+    allocs = [[c, l] for c, l in r[3]]
+    placed = glist(["(%s, %s)" % (gz(t), g_strat(S[sid])) for t, sid in w[1]])
+    profs = glist(["(%s, %s)" % (gz(p), g_obs_vec(req)) for p, req in w[9]])
+    return "(mkWobs %s %s %s %s %s %s %s)" % (glist([gz(n) for n in names]), g_vec(tot), g_obs_vec(r[4]),
+                                              g_obs_allocs(allocs), g_getters(case["keys"], r[0]), placed, profs)
+
+
+def g_robs(case, tot, r):
+    return "(%s, %s, %s, %s)" % (g_vec(tot), g_obs_vec(r[4]), g_obs_allocs(r[3]), g_getters(case["keys"], r[0]))
+
+
+def g_full(tot, r):
+    return "(%s, %s, %s)" % (g_vec(tot), g_obs_vec(r[4]), g_obs_allocs(r[3]))
+
+
+def g_pool_placed(p):
+    return "(%s, %s)" % (glist(["(%s, %s)" % (gz(t), gz(w)) for t, w in p[1]]),
+                         glist(["(%s, %s)" % (gz(wid), glist([gz(t) for t in placed_of(w)])) for wid, w in p["_wl"]]))
+
+
+def analyse(ci, case, run, mon, stats):
+    """walk one implementation run; decide where the theorems' hypotheses hold and emit monitor inputs"""
+    if not case_in_hypotheses(case):
+        stats["outside_hypotheses"] += 1
+        return
+    stats["inside_hypotheses"] += 1
+    S = {s["id"]: s for s in case["strats"]}
+    obs = run["obs"]
+    nobj = len(case["objs"])
+    tots = [vectors_of(o) for o in case["objs"]]
+    wid_lists = [([w[0] for w in o[2]] if o[0] == "pool" else None) for o in case["objs"]]
+    taint = [False] * nobj
+    root = list(range(nobj))
+    prev = obs[0]
+
+    def emit_obj(i, o, where):
+        if o[0] == 0:
+            mon.add("M-res", g_robs(case, tots[i][0], o[1]), where)
+        elif o[0] in (1, 2):
+            for j, w in enumerate(workers_of(o)):
+                mon.add("M-worker", g_wobs(case, tots[i][j], w), where)
+            if o[0] == 2:
+                d = {1: o[1][1], "_wl": list(zip(wid_lists[i], o[1][0]))}
+                mon.add("M-pool", g_pool_placed(d), where)
+
+    for i in range(nobj):
+        emit_obj(i, prev[i], [ci, 0, i])
+    for k, c in enumerate(case["cmds"]):
+        code, cur = obs[k + 1]
+        where = [ci, k + 1]
+        if c[0] in ("copy", "deepcopy"):
+            i = c[1]
+            n = len(cur) - 1
+            tots.append(tots[i])
+            wid_lists.append(wid_lists[i])
+            root.append(root[i])
+            if cur[n][0] == 3:
+                taint.append(True)
+                if not taint[i]:       # a copy of a well-formed object must not raise
+                    mon.add("M-same", "(%s, %s)" % (gval([0]), gval([cur[n][1]])), where + ["copy-raised"])
+            elif c[0] == "copy":
+                batchy = any(has_batch(w, S) for w in workers_of(prev[i]))
+                taint.append(taint[i] or batchy)
+                if not taint[n]:
+                    mon.add("M-same", "(%s, %s)" % (gval(public(prev[i])), gval(public(cur[n]))), where + ["copy-same-getters"])
+                    emit_obj(n, cur[n], where + [n])
+            else:
+                taint.append(False)
+                mon.add("M-same", "(%s, %s)" % (gval(public(obs[0][root[i]])), gval(public(cur[n]))), where + ["deepcopy-initial"])
+                emit_obj(n, cur[n], where + [n])
+            # the original is unchanged by being copied
+            mon.add("M-same", "(%s, %s)" % (gval(prev[:n]), gval(cur[:n])), where + ["copy-leaves-original"])
+            prev = cur
+            continue
+        i = c[1]
+        op = c[2]
+        before = prev[i]
+        # ---- dynamic part of the hypotheses: fresh placements / loads, requests that record something
+        if op[0] == "place":
+            t = op[1]
+            resident = any(t in placed_of(w) for w in workers_of(before)) or (before[0] == 2 and t in [x for x, _ in before[1][1]])
+            if resident:
+                taint[i] = True
+            cand = [S[op[2]]] if c[0] == "worker" else ([S[op[3]]] if op[3] is not None else [S[s] for s in op[2]])
+            if any(no_positive(s["req"]) for s in cand):
+                taint[i] = True
+        if op[0] == "load":
+            p = op[1]
+            ws = workers_of(before)
+            if c[0] == "pool" and op[3] is not None:
+                ws = [w for wid, w in zip(wid_lists[i], ws) if wid == op[3]]
+            if any(p in profiles_of(w) for w in ws) or no_positive(S[op[2]]["req"]):
+                taint[i] = True
+        poolwide = c[0] == "pool" and op[0] in ("load", "evict") and op[-1] is None and len(wid_lists[i]) >= 2
+        # ---- monitors
+        if not taint[i]:
+            emit_obj(i, cur[i], where + [i])
+            if code != 0 and not poolwide:
+                mon.add("M-same", "(%s, %s)" % (gval(before), gval(cur[i])), where + ["refusal-changes-nothing"])
+        if not (op[0] == "step" and run["shared"][k]):
+            others_b = [x for j, x in enumerate(prev) if j != i]
+            others_a = [x for j, x in enumerate(cur) if j != i]
+            if others_b:
+                mon.add("M-same", "(%s, %s)" % (gval(others_b), gval(others_a)), where + ["independence"])
+        prev = cur
+    # ---- removing everything restores full capacity
+    final = run.get("final")
+    if final is not None:
+        for i, o in enumerate(final):
+            if taint[i] or o[0] == 3:
+                continue
+            where = [ci, "cleanup", i]
+            if any(x != 0 for x in run["cleanup"][i]):
+                mon.add("M-same", "(%s, %s)" % (gval([0] * len(run["cleanup"][i])), gval(run["cleanup"][i])),
+                        where + ["removal-of-a-resident-refused"])
+                continue
+            if o[0] == 0:
+                mon.add("M-full", g_full(tots[i][0], o[1]), where)
+            else:
+                for j, w in enumerate(workers_of(o)):
+                    mon.add("M-full", g_full(tots[i][j], w[0]), where)
+                    if placed_of(w) or profiles_of(w):
+                        mon.add("M-same", "(%s, %s)" % (gval([]), gval(placed_of(w) + profiles_of(w))), where + ["still-resident"])
+    stats["tainted_objects"] += sum(taint)
+    stats["objects"] += len(taint)
+
+
+MON_FN = {"M-worker": ("wobs", "check_wobs"), "M-res": ("rvec * rvec * allocs * list (rkey * (Z * Z * Z * Z))", "check_res_obs"),
+          "M-same": ("val * val", "check_same"), "M-full": ("rvec * rvec * allocs", "check_full_all"),
+          "M-pool": ("list (Z * Z) * list (Z * list Z)", "(fun x => check_pool_placed (fst x) (snd x))")}
+
+
+def run_monitors(ctx, cases, mon, tag):
+    for stream, texts in mon.items.items():
+        if not texts:
+            continue
+        ty, fn = MON_FN[stream]
+        bad = ctx.monitor_stream("%s%s" % (stream, tag), HDR, ty, fn, texts, shard=300)
+        for b in bad[:2]:
+            w = mon.where[stream][b]
+            case = cases[w[0]]
+            upto = len(case["cmds"]) if w[1] == "cleanup" else w[1]
+            ctx.violation("%s_%d" % (stream.replace("-", ""), b),
+                          {"monitor": stream, "what": MON_WHAT[stream], "where": w,
+                           "case": dict(case, cmds=case["cmds"][:upto]), "observation": texts[b][:3000]})
+
+
+MON_WHAT = {
+    "M-worker": "a worker of the implementation violates the ledger invariant: available + allocated != configured total for a "
+                "cell, a negative cell, an allocation held by a computation that is not resident (or a resident without its "
+                "allocation), or demand > capacity (C01)",
+    "M-res": "a Resources object of the implementation violates conservation (cells or public getters)",
+    "M-same": "two observations that must be equal differ (see the last element of `where`: a refused request changed the "
+              "state / a copy does not have the getters of its original / a deep copy is not the initial state / an operation "
+              "on one object changed another / removing a resident was refused)",
+    "M-full": "after removing every resident the worker is not back at its configured capacity",
+    "M-pool": "the pool's task map disagrees with its workers, or a task is resident on two workers",
+}
+
+
+# --------------------------------------------------------------------------------------------
+# known findings: witnesses in corpus/C04, replayed on the implementation on every run
+# --------------------------------------------------------------------------------------------
+def objs_at(obs, k):
+    return obs[0] if k == 0 else obs[k][1]
+
+
+def still_fails(w, run):
+    """does the implementation still show the behaviour recorded in the witness?"""
+    obs = run["obs"]
+    k = w["kind"]
+    n = len(obs) - 1
+    last = objs_at(obs, n)
     codes = [o[0] for o in obs[1:]]
-    return any(c > 0 or c == -1 for c in codes) and any(c == 0 for c in codes)
+    if k == "replace-resident":          # allocation left behind although nothing is resident
+        wk = last[0][1]
+        return wk[1] == [] and wk[0][3] != []
+    if k == "replace-resident-pool":     # the task is gone from the pool but still resident on a worker
+        p = last[0][1]
+        return p[1] == [] and any(placed_of(x) for x in p[0])
+    if k == "empty-request":             # the resident task cannot be removed
+        return codes[-1] == 1 and placed_of(last[0][1]) != []
+    if k == "mixed-vector-copy":         # copy raises
+        return codes[-1] == 1
+    if k == "mixed-vector-copy-getters":  # the copy answers a getter differently
+        return public(last[0])[1] != public(last[1])[1]
+    if k == "pool-wide-load":            # refused, but the first worker changed
+        return codes[-1] == 1 and objs_at(obs, n)[0][1][0][0] != objs_at(obs, n - 1)[0][1][0][0]
+    if k == "timer-aliasing":            # stepping the copy changed the original
+        return objs_at(obs, n)[0] != objs_at(obs, n - 1)[0]
+    if k == "copy-drops-batch":          # can_accomodate differs between original and copy
+        return last[0][1][2] != last[1][1][2]
+    if k == "double-load":               # a pending profile without allocation
+        wk = last[0][1]
+        return wk[4] != [] and wk[0][3] == []
+    if k == "negative-quantity":
+        return any(q < 0 for _, q in last[0][1][4])
+    raise ValueError(k)
+
+
+def replay_corpus(ctx):
+    files = sorted(glob.glob(os.path.join(CORPUS, "F*.json")))
+    if not files:
+        return
+    ws = [json.load(open(f)) for f in files]
+    runs = core.run_impl("ledger.py", {"cases": [w["case"] for w in ws]})["runs"]
+    # the model must show the same behaviour (the refuted lemmas are about exactly these witnesses)
+    mcases = [(g_case(w["case"]), r["obs"], w["id"]) for w, r in zip(ws, runs)]
+    mism = ctx.model_stream("S-ledger-corpus", HDR, "world_case", "world_obs", mcases, shard=60)
+    for idx, mv in mism[:3]:
+        ctx.violation("corpus%d" % idx, {"stream": "S-ledger-corpus", "witness": ws[idx]["id"], "case": ws[idx]["case"],
+                                          "implementation": runs[idx]["obs"], "model": mv,
+                                          "what": "model and implementation disagree on a recorded witness"})
+    for w, r in zip(ws, runs):
+        if still_fails(w, r):
+            ctx.known(w["id"], w["what"])
+        else:
+            ctx.broken.append({"kind": "finding-gone", "name": w["id"],
+                               "detail": "the witness of %s no longer shows the recorded behaviour on the implementation: "
+                                         "the refuted lemma %s no longer describes /repo" % (w["id"], w.get("lemma"))})
+
+
+# --------------------------------------------------------------------------------------------
+# exhaustive short histories (thorough tier)
+# --------------------------------------------------------------------------------------------
+def exhaustive_cases(maxlen, limit=None):
+    """all histories of length <= maxlen over one worker with a 2x2 vector (two names, two instances each)"""
+    vec = [[[0, 0], 1], [[0, 1], 1], [[1, 0], 1], [[1, 1], 2]]
+    strats = [{"id": 0, "batch": False, "req": [[[0, None], 1]], "bsize": 1, "runtime": 2},
+              {"id": 1, "batch": False, "req": [[[0, None], 1], [[0, 0], 1]], "bsize": 1, "runtime": 2},   # competing keys
+              {"id": 2, "batch": True, "req": [[[1, None], 2], [[0, 1], 1]], "bsize": 2, "runtime": 1}]
+    alphabet = []
+    for t in (0, 1):
+        for s in (0, 1, 2):
+            alphabet.append(["worker", 0, ["place", t, s]])
+        alphabet.append(["worker", 0, ["remove", t]])
+    alphabet += [["worker", 0, ["load", 0, 0]], ["worker", 0, ["evict", 0]], ["worker", 0, ["step", 1]], ["copy", 0],
+                 ["worker", 1, ["place", 1, 2]], ["worker", 1, ["remove", 0]]]
+    keys = [[0, None], [0, 0], [0, 1], [1, None], [1, 0], [1, 1]]
+    out = []
+    for n in range(1, maxlen + 1):
+        for h in itertools.product(alphabet, repeat=n):
+            nobj = 1
+            ok = True
+            for c in h:
+                if c[0] == "copy":
+                    nobj += 1
+                    if nobj > 2:
+                        ok = False
+                elif c[1] >= nobj:
+                    ok = False
+            if not ok:
+                continue
+            out.append({"keys": keys, "strats": strats, "tasks": [[0, [0, 1]], [1, [2, 0]]], "profs": [0],
+                        "objs": [["worker", 0, vec]], "cmds": [list(c) for c in h], "odd": False, "cleanup": True})
+            if limit and len(out) >= limit:
+                return out
+    return out
 
 
 # --------------------------------------------------------------------------------------------
@@ -250,16 +647,18 @@ def run(ctx):
     ctx.fingerprint(FILES)
     built = ctx.build("C04", deps=["Model/Worker.v"])
     quick = ctx.tier == "quick"
-    n = 600 if quick else 6000
+    n = 500 if quick else 4000
     cases = [gen_case(ctx.rng, 10 if quick else 14) for _ in range(n)]
-    impl = core.run_impl("ledger.py", {"cases": cases})["obs"]
+    runs = core.run_impl("ledger.py", {"cases": cases})["runs"]
+    impl = [r["obs"] for r in runs]
     ctx.rules.append("S-ledger: histories of allocate/allocate_multiple/deallocate/get_allocated_resources on Resources, "
                      "place (plain, batch)/remove/load/evict/step/get_allocated_resources on Worker, place (all branches)/"
                      "remove/load/evict/step on WorkerPool, copy/deepcopy of any of them, on 1-3 resource names x 1-3 "
-                     "instances (`any` cells and `any`/specific/absent requests, zero quantities; half of the cases also "
-                     "outside the theorems' hypotheses: mixed any+specific vectors, competing request keys, negative "
-                     "quantities, batch size 0); after every operation every live object is observed (getters + ledger "
-                     "cells); distinct = distinct (objects, history); non-trivial = at least one refused and one accepted operation")
+                     "instances (`any` cells and `any`/specific/absent requests, zero quantities, competing request keys; "
+                     "about a third of the cases also outside the theorems' hypotheses: mixed any+specific vectors, negative "
+                     "quantities, re-placing a resident task, get_allocated_resources on a stranger); after every operation "
+                     "every live object is observed (getters + ledger cells); distinct = distinct (objects, history); "
+                     "non-trivial = at least one refused and one accepted operation")
     seen = set()
     nt = 0
     opk = {}
@@ -271,13 +670,14 @@ def run(ctx):
         if key in seen:
             continue
         seen.add(key)
-        if nontrivial(c, o):
+        codes = [x[0] for x in o[1:]]
+        if any(x > 0 or x == -1 for x in codes) and any(x == 0 for x in codes):
             nt += 1
     ctx.cov["distinct_nontrivial"] += nt
-    ctx.cov["input_distribution"] = {"ops_by_kind": opk,
-                                     "outcomes": _hist([x[0] for o in impl for x in o[1:]])}
+    ctx.cov["input_distribution"] = {"ops_by_kind": opk, "outcomes": _hist([x[0] for o in impl for x in o[1:]])}
     ctx.sample({"stream": "S-ledger", "case": {k: cases[0][k] for k in ("objs", "cmds")},
                 "outcomes": [x[0] for x in impl[0][1:]]})
+    model_ok = True
     try:
         mcases = [(g_case(c), o, c) for c, o in zip(cases, impl)]
         mism = ctx.model_stream("S-ledger", HDR, "world_case", "world_obs", mcases, shard=60)
@@ -286,7 +686,85 @@ def run(ctx):
                                               "implementation": impl[idx], "model": mv,
                                               "what": "Resources/Worker/WorkerPool observations differ from the model"})
     except core.ModelEvalError as e:
+        model_ok = False
         ctx.broken.append({"kind": "correspondence", "name": "S-ledger", "detail": str(e)[-600:]})
+
+    # ---------------- monitors on the implementation's own observations
+    mon = Mon()
+    stats = {"inside_hypotheses": 0, "outside_hypotheses": 0, "tainted_objects": 0, "objects": 0}
+    for ci, (c, r) in enumerate(zip(cases, runs)):
+        analyse(ci, c, r, mon, stats)
+    ctx.cov["input_distribution"]["monitors"] = dict(stats, **{k: len(v) for k, v in mon.items.items()})
+    ctx.rules.append("monitors (Gallina booleans check_wobs / check_res_obs / check_full_all / check_pool_placed / check_same) "
+                     "are applied to the implementation's observations of every case inside the theorems' hypotheses, after "
+                     "every operation: conservation per cell and per getter against the CONFIGURED totals, no negative cell, "
+                     "every allocation held by a resident and every resident holding exactly its request, demand <= capacity, "
+                     "a refused request changes nothing, operations on one object leave the others unchanged, a copy has the "
+                     "getters of its original, a deep copy those of the initial state, removing every resident restores full capacity")
+    try:
+        run_monitors(ctx, cases, mon, "")
+    except core.ModelEvalError as e:
+        ctx.broken.append({"kind": "monitor", "name": "C04 monitors", "detail": str(e)[-600:]})
+        py_fallback(ctx, cases, runs)
+
+    # ---------------- recorded findings
+    try:
+        replay_corpus(ctx)
+    except core.ModelEvalError as e:
+        ctx.broken.append({"kind": "correspondence", "name": "S-ledger-corpus", "detail": str(e)[-600:]})
+
+    # ---------------- exhaustive short histories
+    exlen = 2 if quick else 4
+    ex = exhaustive_cases(exlen)
+    for c in ex:
+        c["last_only"] = True
+    eruns = core.run_impl("ledger.py", {"cases": ex}, timeout=1500)["runs"]
+    ctx.rules.append("S-ledger-exhaustive: ALL histories of length <= %d over the 14-letter alphabet {place t0/t1 with a plain, a "
+                     "competing-keys and a batch strategy, remove t0/t1, load, evict, step, copy, two operations on the copy} on "
+                     "one worker with a 2x2 vector; outcomes of every operation and the final observation are compared"
+                     % exlen)
+    ctx.cov["input_distribution"]["exhaustive_histories"] = len(ex)
+    ctx.cov["distinct_nontrivial"] += sum(1 for r in eruns if any(x != 0 for x in r["obs"][0]) and any(x == 0 for x in r["obs"][0]))
+    try:
+        mcases = [(g_case(c), r["obs"], c) for c, r in zip(ex, eruns)]
+        mism = ctx.model_stream("S-ledger-exhaustive", HDR, "world_case", "world_obs_last", mcases, shard=250)
+        for idx, mv in mism[:3]:
+            ctx.violation("exh%d" % idx, {"stream": "S-ledger-exhaustive", "case": ex[idx], "implementation": eruns[idx]["obs"],
+                                           "model": mv, "what": "Worker observations differ from the model"})
+    except core.ModelEvalError as e:
+        ctx.broken.append({"kind": "correspondence", "name": "S-ledger-exhaustive", "detail": str(e)[-600:]})
+    if not quick:
+        # the monitors on every exhaustive history of length <= 3 as well (full observation after every operation)
+        ex = [dict(c, last_only=False) for c in ex if len(c["cmds"]) <= 3]
+        eruns = core.run_impl("ledger.py", {"cases": ex}, timeout=1500)["runs"]
+        emon = Mon()
+        estats = {"inside_hypotheses": 0, "outside_hypotheses": 0, "tainted_objects": 0, "objects": 0}
+        for ci, (c, r) in enumerate(zip(ex, eruns)):
+            analyse(ci, c, r, emon, estats)
+        ctx.cov["input_distribution"]["monitors_exhaustive"] = dict(estats, **{k: len(v) for k, v in emon.items.items()})
+        try:
+            run_monitors(ctx, ex, emon, "-exh")
+        except core.ModelEvalError as e:
+            ctx.broken.append({"kind": "monitor", "name": "C04 monitors (exhaustive)", "detail": str(e)[-600:]})
+
+
+def py_fallback(ctx, cases, runs):
+    """pure-Python form of the conservation monitor, used only when the Gallina monitors cannot be evaluated"""
+    for ci, (c, r) in enumerate(zip(cases, runs)):
+        if not case_in_hypotheses(c):
+            continue
+        tots = [vectors_of(o) for o in c["objs"]]
+        for k, step in enumerate(r["obs"][1:]):
+            for i, o in enumerate(step[1][:len(tots)]):
+                for j, w in enumerate(workers_of(o)):
+                    tot = {json.dumps(kq[0]): kq[1] for kq in tots[i][j]}
+                    for key, q in w[0][4]:
+                        kk = json.dumps(k_of_obs(key))
+                        alloc = sum(x for _, l in w[0][3] for k2, x in l if k2 == key)
+                        if q < 0 or q + alloc != tot.get(kk):
+                            ctx.violation("pyledger", {"monitor": "python fallback of check_ledger", "case": dict(c, cmds=c["cmds"][:k + 1]),
+                                                       "cell": key, "available": q, "allocated": alloc, "total": tot.get(kk)})
+                            return
 
 
 def _hist(xs):
